@@ -372,3 +372,98 @@ def bounded_classification_wiring(tier, seed):
             break
     return {"bound": f"{len(descs)} model descriptions over attrs a, b, c (trigger / non-trigger / persistent / non-persistent absent or listed, any_inputs) "
                      "x three simulator types, through World.start", "cases": cases, "failures": failures}
+
+
+def bounded_group_scoping(tier, seed):
+    """Bounded stand-in for World.group / World.start's group bookkeeping (C11: 'distinct groups, including sibling groups, are
+    distinct: sub-time is shared only inside the common enclosing group'): real worlds with nested and sibling `with
+    world.group()` blocks; every started simulator must sit in the group of the innermost enclosing block (the main group outside
+    all blocks, also AFTER a block), its SimRunner must have that group's depth, blocks opened one after the other give distinct
+    groups with the same parent, and a weak connection is accepted exactly between simulators that share a non-root group."""
+    import sys
+    import types
+    import warnings
+    import mosaik
+    import mosaik_api_v3
+    from mosaik.exceptions import ScenarioError
+    warnings.simplefilter("ignore")
+    try:
+        from loguru import logger
+        logger.remove()
+    except Exception:  # noqa: BLE001
+        pass
+    meta = {"api_version": "3.0", "type": "event-based", "models": {"M": {"public": True, "params": [], "attrs": ["x"]}}}
+
+    class Sim(mosaik_api_v3.Simulator):
+        def __init__(self):
+            super().__init__(meta)
+
+        def init(self, sid, time_resolution=1.0, **kw):
+            return self.meta
+
+        def create(self, num, model, **kw):
+            return [{"eid": f"e{i}", "type": model} for i in range(num)]
+
+        def step(self, time, inputs, max_advance):
+            return None
+
+        def get_data(self, outputs):
+            return {}
+    mod = types.ModuleType("_c11g_sims")
+    mod.Sim = Sim
+    sys.modules["_c11g_sims"] = mod
+    # a block structure is a nested list; "s" starts a simulator at that place
+    shapes = [["s", ["s"], "s"], [["s", "s"], ["s"], "s"], [["s", ["s", "s"], "s"], "s"], ["s", [["s"], ["s"]], "s"], [["s"], ["s"], ["s"]]]
+    failures, cases = [], 0
+    for shape in shapes:
+        w = mosaik.World({"S": {"python": "_c11g_sims:Sim"}}, skip_greetings=True)
+        try:
+            placed = []          # (factory, path of block indices)
+
+            def walk(items, path):
+                k = 0
+                for it in items:
+                    if it == "s":
+                        placed.append((w.start("S"), tuple(path)))
+                    else:
+                        with w.group():
+                            walk(it, path + [k])
+                        k += 1
+            walk(shape, [])
+            cases += 1
+            problems = []
+            groups = {}
+            for f, path in placed:
+                g = f._group
+                if g.depth != len(path) + 1 or w.sims[f._sid].progress.time.tiers.__len__() != len(path) + 1:
+                    problems.append(f"{f._sid} started at block path {path}: group depth {g.depth}, time depth {len(w.sims[f._sid].progress.time)} "
+                                    f"(expected {len(path) + 1})")
+                if path in groups and groups[path] is not g:
+                    problems.append(f"two simulators of block {path} sit in different groups")
+                groups.setdefault(path, g)
+            for p1, g1 in groups.items():
+                for p2, g2 in groups.items():
+                    if p1 != p2 and (g1 is g2 or g1 == g2):
+                        problems.append(f"blocks {p1} and {p2} share one group object / compare equal")
+                if p1 and p1[:-1] in groups and g1.parent is not groups[p1[:-1]]:
+                    problems.append(f"the group of block {p1} does not have the group of block {p1[:-1]} as its parent")
+            # weak connections: accepted iff the two simulators share a non-root group
+            for (f1, p1), (f2, p2) in [(a, b) for a in placed for b in placed if a is not b][:12]:
+                cases += 1
+                common = 0
+                while common < min(len(p1), len(p2)) and p1[common] == p2[common]:
+                    common += 1
+                e1, e2 = f1.M(), f2.M()
+                try:
+                    w.connect(e1, e2, ("x", "x"), weak=True)
+                    accepted = True
+                except ScenarioError:
+                    accepted = False
+                if accepted != (common >= 1):
+                    problems.append(f"weak connection {f1._sid} (block {p1}) -> {f2._sid} (block {p2}) was {'accepted' if accepted else 'rejected'}")
+            if problems:
+                failures.append({"desc": f"block structure {shape}: " + "; ".join(problems[:4]), "case": {"shape": str(shape)}})
+        finally:
+            w.shutdown()
+    return {"bound": f"{len(shapes)} nestings of `with world.group()` blocks (depth <= 3, siblings, simulators before / inside / after blocks), up to 12 "
+                     "weak connections each", "cases": cases, "failures": failures[:5]}
